@@ -114,6 +114,10 @@ class ExprMixin:
         q = self.resolve_function_name(name, mi)
         if q is not None and self.src.function(q) is not None:
             return static("function", q)
+        if name in mi.imports and "." in mi.imports[name]:
+            mod_, attr_ = mi.imports[name].rsplit(".", 1)     # `from copy import deepcopy`: an attribute of an external module
+            if (mod_, attr_) in self.LIBRARY:
+                return static("modattr", (mod_, attr_))
         ci = self.src.resolve_class(name, mi.name)
         if ci is not None:
             return static("class", ci)
